@@ -168,8 +168,51 @@ func (o *Once) Do(f func()) {
 	}
 }
 
-// Pool and Map are passed through (no blocking semantics the scheduler must own).
-type Pool = sync.Pool
+// Pool is a deterministic stand-in for sync.Pool inside controlled executions: a LIFO free list that never
+// drops items (sync.Pool may drop or keep them; keeping is the behaviour that exposes stale state). Put
+// happens-before the Get that returns the item, as the Go memory model says.
+type Pool struct {
+	New   func() interface{}
+	real  sync.Pool
+	items []interface{}
+}
+
+func (p *Pool) String() string { return "pool" }
+
+func (p *Pool) Get() interface{} {
+	if !vsched.Active() {
+		if x := p.real.Get(); x != nil {
+			return x
+		}
+		if p.New != nil {
+			return p.New()
+		}
+		return nil
+	}
+	vsched.Yield("pool.get", p, vsched.Always)
+	if n := len(p.items); n > 0 {
+		x := p.items[n-1]
+		p.items = p.items[:n-1]
+		vsched.Acquire(p)
+		return x
+	}
+	if p.New != nil {
+		return p.New()
+	}
+	return nil
+}
+
+func (p *Pool) Put(x interface{}) {
+	if !vsched.Active() {
+		p.real.Put(x)
+		return
+	}
+	vsched.Yield("pool.put", p, vsched.Always)
+	vsched.Release(p)
+	p.items = append(p.items, x)
+}
+
+// Map is passed through (no blocking semantics the scheduler must own).
 type Map = sync.Map
 type Cond = sync.Cond
 
